@@ -4,8 +4,9 @@
      second codec value read [wire] through a random-chunk reader until the first error:
      the model must produce the same wire bytes, the same frames and the same final error.
    CAccept: a client stream [wire] (tag + frames, or arbitrary bytes) was accepted by
-     transport.Listen(...).Accept() and read with Conn.Recv until the first error: the model
-     is detect followed by read_stream with the detected codec.
+     transport.Listen(...).Accept() and read with Conn.Recv until the first error, then the
+     accepted connection sent [sent] back producing [out]: the model is detect followed by
+     read_stream / write with the detected codec.
    CWrite: one codec.Write call (kind, arg, bytes written). *)
 From Coq Require Import List ZArith Bool.
 From TD Require Export Lib.HexBytes.
@@ -15,7 +16,7 @@ Open Scope Z_scope.
 
 Inductive case :=
 | CStream (codec seq : Z) (rnds ps : list (list Z)) (wire : list Z) (frames : list (list Z)) (stop : Z * Z)
-| CAccept (wire : list Z) (frames : list (list Z)) (stop : Z * Z)
+| CAccept (wire : list Z) (frames : list (list Z)) (stop : Z * Z) (sent rnds : list (list Z)) (out : list Z)
 | CWrite (codec seq : Z) (rnd p : list Z) (res : Z * Z * list Z).
 
 Definition stop_of (s : stop) : Z * Z :=
@@ -41,12 +42,14 @@ Definition ok (c : case) : bool :=
        list_eqb zlist_eqb fs frames && zz_eqb (stop_of st) stop)
     | _ => false
     end
-  | CAccept wire frames stop =>
+  | CAccept wire frames stop sent rnds out =>
     match detect wire with
     | Ok (cd, s) =>
       let '(fs, st) := read_stream crc32 cd 0 (S (length wire)) s in
-      list_eqb zlist_eqb fs frames && zz_eqb (stop_of st) stop
-    | Err e => match frames with [] => zz_eqb (kind_of e) stop | _ => false end
+      list_eqb zlist_eqb fs frames && zz_eqb (stop_of st) stop &&
+      (* frames the accepted connection sent back: written with the detected codec *)
+      match write_seq cd 0 rnds sent with Ok w => zlist_eqb w out | _ => false end
+    | Err e => match frames, sent with [], [] => zz_eqb (kind_of e) stop | _, _ => false end
     | Panic => false
     end
   | CWrite ci seq rnd p (k, arg, out) =>
